@@ -33,6 +33,9 @@ type world struct {
 	args     []string // arguments received by User.calc, rendered
 	introspection bool // introspection enabled for the operation
 	onCall   func(n int) // called at the n-th resolver call (cancellation points)
+	subEvents []*User // the events the subscription resolver emitted
+	onlyIntercept bool // deviations are spent on interceptor outcomes only
+	intercept bool // the field interceptor may fail (C04): one more fault point around every field
 	gated    bool // resolver calls are schedule gates (C06/C13: completion orders are replayed natively)
 }
 
@@ -52,7 +55,7 @@ func (w *world) notePanic() {
 
 // pick chooses among n alternatives for a position; 0 is the default.
 func (w *world) pick(key string, n int) int {
-	if w.budget <= 0 {
+	if w.budget <= 0 || (w.onlyIntercept && !strings.HasPrefix(key, "mw:")) {
 		return 0
 	}
 	c := zzsym.Choice(key, n)
@@ -260,6 +263,69 @@ func (w *world) Resolve(pt, pid, field string, args map[string]any) ref.Out {
 	return o
 }
 
+// Intercept: outcome of the field interceptor around (parent, field).
+func (w *world) Intercept(pt, pid, field string) ref.Kind {
+	if !w.intercept {
+		return ref.KValue
+	}
+	w.mu.Lock()
+	defer w.mu.Unlock()
+	key := "mw:" + pid + "/" + pt + "." + field
+	if g, ok := w.guards[key]; ok {
+		return g
+	}
+	g := ref.KValue
+	switch w.pick(key, 2+w.nf()) {
+	case 1:
+		g = ref.KNull
+	case 2:
+		g = ref.KError
+	case 3:
+		g = ref.KPanic
+	}
+	w.guards[key] = g
+	return g
+}
+
+// worldPID is the world's id of the object a field context's field is resolved on
+// (field names, not aliases; list elements as [i]).
+func worldPID(fc *graphql.FieldContext) string {
+	var chain []*graphql.FieldContext
+	for p := fc.Parent; p != nil; p = p.Parent {
+		chain = append(chain, p)
+	}
+	id := ""
+	for k := len(chain) - 1; k >= 0; k-- {
+		c := chain[k]
+		switch {
+		case c.Index != nil:
+			id += "[" + strconv.Itoa(*c.Index) + "]"
+		case c.Field.Field != nil:
+			if id != "" {
+				id += "."
+			}
+			id += c.Field.Name
+		}
+	}
+	return id
+}
+
+func (w *world) fieldMiddleware(ctx context.Context, next graphql.Resolver) (any, error) {
+	if w.intercept {
+		fc := graphql.GetFieldContext(ctx)
+		switch w.Intercept(fc.Object, worldPID(fc), fc.Field.Name) {
+		case ref.KNull:
+			return nil, nil
+		case ref.KError:
+			return nil, errBoom
+		case ref.KPanic:
+			w.notePanic()
+			panic("interceptor panic")
+		}
+	}
+	return next(ctx)
+}
+
 func (w *world) Guard(k int, pid, field string) ref.Kind {
 	w.mu.Lock()
 	defer w.mu.Unlock()
@@ -457,6 +523,44 @@ func (r *mutationResolver) C(ctx context.Context) (*User, error) {
 }
 
 type subscriptionResolver struct{ w *world }
+
+// Watch / StrictWatch: a stream of user events decided by the world:
+// subscribing may fail; then 0..2 events, users "watch#1", "watch#2" (the
+// second possibly nil).
+func (r *subscriptionResolver) events(field string) (<-chan *User, error) {
+	w := r.w
+	w.called("/Subscription." + field)
+	w.mu.Lock()
+	c := w.pick("sub:"+field, 4+w.nf())
+	w.mu.Unlock()
+	var evs []*User
+	switch c {
+	case 0:
+		evs = []*User{mkUser(ref.NewUser(field + "#1")), mkUser(ref.NewUser(field + "#2"))}
+	case 1:
+		evs = []*User{mkUser(ref.NewUser(field + "#1"))}
+	case 2:
+		evs = nil
+	case 3:
+		evs = []*User{mkUser(ref.NewUser(field + "#1")), nil}
+	case 4:
+		return nil, errBoom
+	default:
+		w.notePanic()
+		panic("subscribe panic")
+	}
+	w.subEvents = evs
+	ch := make(chan *User, len(evs))
+	for _, e := range evs {
+		ch <- e
+	}
+	close(ch)
+	return ch, nil
+}
+func (r *subscriptionResolver) Watch(ctx context.Context) (<-chan *User, error) { return r.events("watch") }
+func (r *subscriptionResolver) StrictWatch(ctx context.Context) (<-chan *User, error) {
+	return r.events("strictWatch")
+}
 
 func (r *subscriptionResolver) Ticks(ctx context.Context, n *int) (<-chan int, error) {
 	ch := make(chan int, 1)
@@ -692,6 +796,9 @@ func pathString(p ast.Path) string {
 	return sb.String()
 }
 
+// snapshotData: runOpCtx copies each response's data when it arrives.
+var snapshotData bool
+
 type runResult struct {
 	data  string
 	errs  []string // sorted response paths
@@ -726,6 +833,13 @@ func runOpCtx(parent context.Context, maxPayloads int, w *world, doc *ast.QueryD
 		if resp == nil {
 			break
 		}
+		if snapshotData {
+			// consume like a transport does: the payload is serialised when it arrives (a
+			// subscription's responses share one buffer across calls of the response function)
+			cp := *resp
+			cp.Data = append([]byte(nil), resp.Data...)
+			resp = &cp
+		}
 		res.resps = append(res.resps, resp)
 		if len(res.resps) == 1 {
 			res.data = string(resp.Data)
@@ -756,7 +870,7 @@ func opCtxFor(w *world, doc *ast.QueryDocument, vars map[string]any) *graphql.Op
 	return &graphql.OperationContext{
 		RawQuery: "", Variables: vars, Doc: doc, Operation: doc.Operations[0], DisableIntrospection: !w.introspection,
 		RecoverFunc:            func(ctx context.Context, err any) error { w.mu.Lock(); w.recovers++; w.mu.Unlock(); return gqlerror.Errorf("internal system error") },
-		ResolverMiddleware:     func(ctx context.Context, next graphql.Resolver) (any, error) { return next(ctx) },
+		ResolverMiddleware:     w.fieldMiddleware,
 		RootResolverMiddleware: func(ctx context.Context, next graphql.RootResolver) graphql.Marshaler { return next(ctx) },
 	}
 }
